@@ -3,6 +3,10 @@ the property's oracle looks at the real pre/post graphs."""
 from . import cmdrun, gen, oracles
 
 
+TORN_FRAGMENTS = [b'{"type":"state","ts":"2026-01-01T00:00:00Z","data":{"id":"', b'{"type":"new_task","ts":"2026-01-01T00:00:00.5Z","data":{"id":"QQQQQQ","uuid":"u","title":"half a li',
+                  b'{', b'{"type":"claim","ts":"2026-01-01T00:00:00Z","data":{"id":"AAAAAA","agent_id":"zz","ts":"2026-01-01T00:00:00Z"']
+
+
 def mode_of(req):
     if req.get("body_stdin"): return "body-stdin"
     if req.get("piped") is False: return "flags"
@@ -30,6 +34,14 @@ def run_history(ctx, r, n_cmds, weights, oracle, legacy=None, prelude=None, gen_
         pre = None
         diverged = False
         for i in range(n_cmds):
+            if i and r.p(4):
+                # another writer was killed in the middle of its write: the log now ends in a fragment without newline (readers skip it, the
+                # next writer drops it).  Nothing about what commands decide, print or record may depend on it.
+                frag = r.pick(TORN_FRAGMENTS)
+                with open(st.log_path(), "ab") as f:
+                    f.write(frag)
+                trace.append({"edit": "torn fragment appended to the log, no newline", "bytes": frag.decode("utf-8", "replace")})
+                pre = None
             req, agent = (gen_fn or gen.gen_request)(r, v, weights)
             req = cmdrun.classify_raw(ctx.go, req)
             rec = cmdrun.run_and_compare(st, ctx.model, req, agent, pre_graph=pre)
@@ -74,6 +86,9 @@ def replay_trace(ctx, trace, legacy=False):
     st = cmdrun.Store(ctx.ergo, ctx.go, legacy=legacy)
     for step in trace:
         if "argv" not in step:
+            if "bytes" in step and "edit" in step:
+                with open(st.log_path(), "ab") as f:
+                    f.write(step["bytes"].encode())
             print("·", {k: v for k, v in step.items()})
             continue
         r = st.exec(step["argv"], None if step.get("stdin") is None else step["stdin"].encode(), env=step.get("env"))
